@@ -114,7 +114,14 @@ def b_scaling(V, cfg):
     import pymoto as pym
     mode = cfg["mode"]
     s = V.real("scal", positive=True, default=2.0)
-    if mode == "objective":
+    if mode == "objective" and cfg.get("array"):
+        # array-valued (mutable) state; the frozen norm of the first value is a root symbol
+        x0 = V.reals("x_init", 2, nonzero=True, default=0.75)
+        sig = pym.Signal("x", x0)
+        m = pym.Scaling(sig, scaling=s)
+        m.response()
+        sig.state = V.reals("x", 2, default=1.5)
+    elif mode == "objective":
         # the documented memory: the norm of the FIRST value is frozen -> evaluate once on x_init, then move on
         sig = pym.Signal("x", V.real("x_init", nonzero=True, default=0.75))
         m = pym.Scaling(sig, scaling=s)
@@ -705,6 +712,7 @@ def module_grid(tier):
     add("concat", "3sig")
     for mode in ("objective", "min", "max"):
         add("scaling", mode, mode=mode)
+    add("scaling", "objective-array", mode="objective", array=True)
     for w in ("MakeComplex", "RealPart", "ImagPart", "ComplexNorm"):
         add("complex", w, which=w)
     for agg in ("PNorm", "KS", "SoftMinMax"):
